@@ -74,6 +74,59 @@ def allPostings : List TxRec → List Posting
   | [] => []
   | t :: ts => t.postings ++ allPostings ts
 
+
+/-! ### sums over a volumes table -/
+
+/-- Σ of the inputs of the rows in asset `s`. -/
+def inputsIn (s : String) (m : PCV) : Int := Map.sumBy (fun k v => if k.2 = s then v.input else 0) m
+/-- Σ of the outputs of the rows in asset `s`. -/
+def outputsIn (s : String) (m : PCV) : Int := Map.sumBy (fun k v => if k.2 = s then v.output else 0) m
+/-- Σ over the rows in asset `s` of `input − output` (the sum of all balances in `s`). -/
+def netIn (s : String) (m : PCV) : Int := Map.sumBy (fun k v => if k.2 = s then v.input - v.output else 0) m
+
+/-- Σ over a list of accounts of an integer measure. -/
+def sumOver (accts : List String) (f : String → Int) : Int := (accts.map f).sum
+
+/-! ### running volumes (the reference for moves) -/
+
+/-- The moves a reader expects: walk the postings in order from the volumes `m` the
+    touched accounts had before the transaction; posting `j` first adds its amount to
+    the source's output — the source move records the source's volumes at that point —
+    then to the destination's input — the destination move records the destination's
+    volumes at that point. -/
+def runningMoves : PCV → List Posting → Except Err (List Move)
+  | _, [] => .ok []
+  | m, p :: ps =>
+    match PCV.addOutput m p.source p.asset p.amount with
+    | .error e => .error e
+    | .ok m1 =>
+      match m1.get? p.srcKey with
+      | none => .error .nilDeref
+      | some vs =>
+        match PCV.addInput m1 p.destination p.asset p.amount with
+        | .error e => .error e
+        | .ok m2 =>
+          match m2.get? p.dstKey with
+          | none => .error .nilDeref
+          | some vd =>
+            match runningMoves m2 ps with
+            | .error e => .error e
+            | .ok rest =>
+              .ok ({ account := p.source, asset := p.asset, amount := p.amount, isSource := true, pcv := vs } ::
+                   { account := p.destination, asset := p.asset, amount := p.amount, isSource := false, pcv := vd } ::
+                   rest)
+
+/-- Volumes after applying the postings in order (touched entries must exist). -/
+def applyPostings : PCV → List Posting → Except Err PCV
+  | m, [] => .ok m
+  | m, p :: ps =>
+    match PCV.addOutput m p.source p.asset p.amount with
+    | .error e => .error e
+    | .ok m1 =>
+      match PCV.addInput m1 p.destination p.asset p.amount with
+      | .error e => .error e
+      | .ok m2 => applyPostings m2 ps
+
 /-! ### current reads -/
 
 def volumesOf (txs : List TxRec) (k : Key) : Volumes := foldVolumes k (allPostings txs)
